@@ -40,6 +40,22 @@ struct Env {
 static const Env ENVS[] = {{0, true}, {1, true}, {2, true}, {3, true}, {3, false}};
 static bool refAvailable(const Def& d, const Env* env) { return !env || d.cond == 0 || d.cond == env->code; }
 
+// one further operation on a built map (reached in ebusd through "define -r" and HTTP definitions)
+struct Edit {
+  char kind;   // 'r' = MessageMap::remove(definition), 'a' = add of a definition with replace=true
+  int def;
+};
+// set semantics of a replacing add of d: a loaded definition x (another row, another name) surely stays when it
+// differs from d in direction, destination, command, passive source, in all complete IDs, or when both are guarded by
+// different conditions; otherwise the statement does not say whether d replaces it
+static bool refSurvivesReplace(const Def& x, const Def& d) {
+  if (x.kind != d.kind || x.dst != d.dst || x.pb != d.pb || x.sb != d.sb) return true;
+  if (x.passive() && x.src != d.src) return true;
+  if (x.cond && d.cond && x.cond != d.cond) return true;
+  for (auto& p : x.parts) for (auto& q : d.parts) if (p == q) return false;
+  return true;
+}
+
 // ---------------------------------------------------------------------------------------------
 // reference matcher (from the statement; never looks at keys, hashes or probe order)
 // ---------------------------------------------------------------------------------------------
@@ -65,7 +81,7 @@ static bool refDirection(const Def& d, unsigned f) {
 // *why: first attribute that fails
 static int refMatch(const Def& d, const Tele& t, unsigned f, int* idLen, const char** why) {
   *idLen = -1;
-  if (t.pb != c08::PB || t.sb != c08::SB) { *why = "pbsb"; return 0; }
+  if (t.pb != d.pb || t.sb != d.sb) { *why = "pbsb"; return 0; }
   int l = refIdMatch(d, t.data);
   if (l < 0) { *why = "id"; return 0; }
   *idLen = l;
@@ -79,7 +95,8 @@ static int refMatch(const Def& d, const Tele& t, unsigned f, int* idLen, const c
   // anyDestination selects the definitions without a particular destination (find() doc comment);
   // whether the other group may also be returned is not fixed by the statement: undecided
   bool dstSure = (f & F_ANYDEST) ? d.dst == ANY : d.dst == t.zz;
-  *why = "";
+  *why = dstSure ? "" : "undecided-destination";
+  if (d.optional) return 1;   // built-in message outside the key map
   return (srcSure && dstSure) ? 2 : 1;
 }
 
@@ -89,7 +106,7 @@ struct Verdict {
   string detail;
 };
 
-static const char* kindName(const Def& d) { return d.chained() ? "chained" : "plain"; }
+static const char* kindName(const Def& d) { return d.optional ? "builtin" : d.implicit ? "scan" : d.chained() ? "chained" : "plain"; }
 static const char* dirName(const Def& d) {
   return d.kind == c08::K_READ ? "read" : d.kind == c08::K_WRITE ? "write" : d.kind == c08::K_PASSIVE_READ ? "passive" : "passivewrite";
 }
@@ -105,7 +122,7 @@ static Verdict judge(const vector<Def>& U, const vector<int>& loaded, const Tele
     if (refMatch(U[di], t, f, &l, &why) == 2 && l > bestLen) { bestLen = l; best = di; }
   }
   char b[256];
-  if (result == -2 || (result >= 0 && std::find(loaded.begin(), loaded.end(), result) == loaded.end())) {
+  if (result == -2 || (result >= 0 && !U[result].optional && std::find(loaded.begin(), loaded.end(), result) == loaded.end())) {
     v.rule = "returned-unloaded";
     v.sig = "C08/returned-unloaded";
     v.detail = "find() returned a message that is not one of the loaded definitions";
@@ -126,6 +143,16 @@ static Verdict judge(const vector<Def>& U, const vector<int>& loaded, const Tele
       v.rule = "returned-unavailable";
       v.sig = string("C08/returned-unavailable/") + kindName(U[result]) + "-" + dirName(U[result]);
       snprintf(b, sizeof(b), "find(onlyAvailable=true) returned n%02d whose condition is not fulfilled", result);
+      v.detail = b;
+      return v;
+    }
+    if (m == 1 && string(why) == "undecided-destination" && best >= 0 && bestLen >= l) {
+      // a definition for the very destination asked for (resp. without destination when anyDestination is asked
+      // for) matches at least as long: the other destination group must not be returned instead
+      v.rule = "other-destination-group";
+      v.sig = string("C08/other-destination-group/got-") + (U[result].dst == ANY ? "wildcard" : "particular") + (U[result].optional ? "-builtin" : "") + "/want-" + kindName(U[best]) + "-" + dirName(U[best]);
+      snprintf(b, sizeof(b), "find(anyDestination=%s) returned %s although loaded n%02d for the destination group asked for matches with ID length %d",
+               (f & F_ANYDEST) ? "true" : "false", U[result].dst == ANY ? "a definition without destination" : "a definition with a particular destination", best, bestLen);
       v.detail = b;
       return v;
     }
@@ -236,9 +263,18 @@ struct Built {
   vector<result_t> results; // per definition of the order
   string envLog;            // what was done for the environment
   bool availabilityOk = true;  // isAvailable() of every loaded definition agrees with the environment model
+  string editLog;
+  vector<std::pair<string, string>> editViolations;   // (signature, detail)
 };
 
-static Built build(const vector<Def>& U, const vector<int>& order, const Env* env = nullptr) {
+static Message* byName(MessageMap* map, int di) {
+  char nm[8]; snprintf(nm, sizeof(nm), "n%02d", di);
+  std::deque<Message*> q;
+  map->findAll("c", nm, "*", true, true, true, true, true, false, 0, 0, false, &q);
+  return q.size() == 1 ? q[0] : nullptr;
+}
+
+static Built build(const vector<Def>& U, const vector<int>& order, const Env* env = nullptr, const Edit* edit = nullptr) {
   Built b;
   g_now += 10;
   b.map.reset(new MessageMap(false, "", false));
@@ -256,8 +292,13 @@ static Built build(const vector<Def>& U, const vector<int>& order, const Env* en
     }
   }
   for (int di : order) {
-    std::istringstream is(c08::defLine(U[di], di));
-    result_t r = b.map->readLineFromStream(&is, "c08", false, &lineNo, &row, &err, false, nullptr, nullptr);
+    result_t r;
+    if (U[di].implicit) {
+      r = b.map->getScanMessage((symbol_t)U[di].dst) ? RESULT_OK : RESULT_ERR_NOTFOUND;
+    } else {
+      std::istringstream is(c08::defLine(U[di], di));
+      r = b.map->readLineFromStream(&is, "c08", false, &lineNo, &row, &err, false, nullptr, nullptr);
+    }
     R.transitions++;
     b.results.push_back(r);
     if (r == RESULT_OK) b.loaded.push_back(di);
@@ -280,13 +321,46 @@ static Built build(const vector<Def>& U, const vector<int>& order, const Env* en
     } else {
       b.envLog += "; message c/code never received";
     }
+  }
+  if (edit) {
+    vector<int> before = b.loaded;
+    char buf[200];
+    R.transitions++;
+    if (edit->kind == 'r') {
+      Message* m = byName(b.map.get(), edit->def);
+      if (m) b.map->remove(m);
+      snprintf(buf, sizeof(buf), "remove(n%02d)%s", edit->def, m ? "" : " (not loaded: nothing removed)");
+      b.editLog = buf;
+    } else {
+      std::istringstream is(c08::defLine(U[edit->def], edit->def));
+      result_t r = b.map->readLineFromStream(&is, "c08", false, &lineNo, &row, &err, true, nullptr, nullptr);
+      snprintf(buf, sizeof(buf), "add with replace=true of \"%s\" -> %s", c08::defLine(U[edit->def], edit->def).c_str(), getResultCode(r));
+      b.editLog = buf;
+    }
+    // what is loaded now is read from the name index (independent of the key buckets the lookup uses)
+    b.loaded.clear();
+    for (int di : before) if (di != edit->def && byName(b.map.get(), di)) b.loaded.push_back(di);
+    bool defPresent = byName(b.map.get(), edit->def) != nullptr;
+    if (defPresent) b.loaded.push_back(edit->def);
+    for (int di : before) {
+      if (di == edit->def) continue;
+      bool present = std::find(b.loaded.begin(), b.loaded.end(), di) != b.loaded.end();
+      bool mustStay = edit->kind == 'r' || refSurvivesReplace(U[di], U[edit->def]);
+      if (!present && mustStay) {
+        snprintf(buf, sizeof(buf), "%s also removed n%02d (%s), a different definition", b.editLog.c_str(), di, c08::defLine(U[di], di).c_str());
+        b.editViolations.push_back({string("C08/edit-removed-other/") + (edit->kind == 'r' ? "remove" : "replace") + "/" + kindName(U[di]) + "-" + dirName(U[di]), buf});
+      }
+    }
+    if (edit->kind == 'r' && defPresent) {
+      snprintf(buf, sizeof(buf), "%s: the definition is still listed by name", b.editLog.c_str());
+      b.editViolations.push_back({"C08/edit-not-removed/remove", buf});
+    }
+  }
+  if (env) {
     // the model of the environment must agree with the implementation's own view, otherwise the oracle is void
     for (int di : b.loaded) {
-      char nm[8]; snprintf(nm, sizeof(nm), "n%02d", di);
-      Message* m = nullptr;
-      std::deque<Message*> q;
-      b.map->findAll("c", nm, "*", true, true, true, true, true, false, 0, 0, false, &q);
-      if (q.size() == 1) m = q[0];
+      if (U[di].implicit) continue;
+      Message* m = byName(b.map.get(), di);
       if (!m || m->isAvailable() != refAvailable(U[di], env)) b.availabilityOk = false;
     }
   }
@@ -297,6 +371,9 @@ static int resultIndex(const Message* m) {
   if (!m) return -1;
   const string& n = m->getName();
   if (n.size() == 3 && n[0] == 'n' && m->getCircuit() == "c") return atoi(n.c_str() + 1);
+  if (n.empty() && m->getCircuit() == "scan.08") return c08::FIRST_IMPLICIT;
+  if (n.empty() && m->getCircuit() == "scan.15") return c08::FIRST_IMPLICIT + 1;
+  if (n.empty() && m->getCircuit() == "scan") return m->getDstAddress() == BROADCAST ? c08::BROADCAST_SCAN : c08::GENERIC_SCAN;
   return -2;
 }
 
@@ -363,9 +440,15 @@ static string flagStr(unsigned f) {
 }
 
 // evaluate one state (ordered subset); memberOnly restricts the telegrams to those derived from its members
-static void runState(const vector<Def>& U, const vector<TeleEntry>& teles, const vector<int>& order, bool memberOnly, const Env* env = nullptr) {
-  Built b = build(U, order, env);
+static void runState(const vector<Def>& U, const vector<TeleEntry>& teles, const vector<int>& order, bool memberOnly, const Env* env = nullptr,
+                     const Edit* edit = nullptr) {
+  Built b = build(U, order, env, edit);
   string envStr = env ? ";e=" + std::to_string(env->code) + ";a=" + (env->onlyAvailable ? "1" : "0") : "";
+  if (edit) envStr += string(";x=") + edit->kind + std::to_string(edit->def);
+  for (auto& ev : b.editViolations) {
+    R.evaluations++;
+    R.violation(ev.first, ev.second + " [map " + orderStr(order) + envStr + "]", "defs=" + orderStr(order) + ";t=3108b50900;f=14" + envStr);
+  }
   R.state(vp::fnv(orderStr(order) + envStr));
   if (env) {
     R.count("states_with_conditional_definitions");
@@ -378,6 +461,7 @@ static void runState(const vector<Def>& U, const vector<TeleEntry>& teles, const
   }
   uint64_t mask = 0;
   for (int di : order) mask |= 1ULL << di;
+  if (edit) mask |= 1ULL << edit->def;
   R.count(string("maps_size_") + std::to_string(order.size()));
   if (b.loaded.size() != order.size()) R.count("maps_with_rejected_duplicate");
   for (size_t ti = 0; ti < teles.size(); ti++) {
@@ -414,14 +498,32 @@ static int replay(const vector<Def>& U, const string& c) {
     string tok;
     while (getline(is, tok, '.')) if (!tok.empty()) order.push_back(atoi(tok.c_str()));
   }
-  for (int di : order) if (di < 0 || di >= (int)U.size()) { printf("bad definition index\n"); return 2; }
+  for (int di : order) if (di < 0 || di >= (int)U.size() || U[di].optional) { printf("bad definition index\n"); return 2; }
+  if (m.count("u")) {
+    // universe pin: this row alone must load
+    int di = order.empty() ? -1 : order[0];
+    if (di < 0 || di >= c08::FIRST_IMPLICIT) { printf("bad definition index\n"); return 2; }
+    Built b1 = build(U, {di}, U[di].cond ? &ENVS[1] : nullptr);
+    printf("row of the harness universe loaded alone into an empty map: %s -> %s\n", c08::defLine(U[di], di).c_str(), getResultCode(b1.results[0]));
+    if (b1.loaded.size() == 1) { printf("OK\n"); return 0; }
+    printf("VIOLATES C08/universe-shrunk: a row that is valid by the documented CSV format is not loaded\n");
+    return 1;
+  }
   Bytes raw = c08::hx(m["t"].c_str());
   if (raw.size() < 5) { printf("bad telegram\n"); return 2; }
   Tele t{raw[0], raw[1], raw[2], raw[3], Bytes(raw.begin() + 5, raw.end())};
   unsigned f = (unsigned)atoi(m["f"].c_str());
+  bool hasEnv = m.count("e") != 0;
   Env envv{atoi(m["e"].c_str()), m["a"] != "0"};
-  const Env* env = m.count("e") ? &envv : nullptr;
-  Built b = build(U, order, env);
+  const Env* env = hasEnv ? &envv : nullptr;
+  Edit editv{'r', 0};
+  const Edit* edit = nullptr;
+  if (m.count("x") && m["x"].size() >= 2) {
+    editv.kind = m["x"][0]; editv.def = atoi(m["x"].c_str() + 1);
+    if ((editv.kind != 'r' && editv.kind != 'a') || editv.def < 0 || editv.def >= c08::FIRST_IMPLICIT) { printf("bad edit\n"); return 2; }
+    edit = &editv;
+  }
+  Built b = build(U, order, env, edit);
   if (env) {
     printf("loaded first: the message the conditions refer to and the conditions [isA] (code=1), [isB] (code=2):\n");
     for (auto line : c08::COND_PRELUDE) printf("  %s\n", line);
@@ -431,9 +533,17 @@ static int replay(const vector<Def>& U, const string& c) {
     printf("  %s  -> %s\n", c08::defLine(U[order[i]], order[i]).c_str(), getResultCode(b.results[i]));
   MasterSymbolString ms; toMaster(t, &ms);
   if (env) printf("environment: %s; isAvailable() agrees with the model: %s\n", b.envLog.c_str(), b.availabilityOk ? "yes" : "NO");
+  if (edit) {
+    printf("then: %s\nloaded afterwards (by name):", b.editLog.c_str());
+    for (int di : b.loaded) printf(" n%02d", di);
+    printf("\n");
+    for (auto& ev : b.editViolations) printf("VIOLATES %s: %s\n", ev.first.c_str(), ev.second.c_str());
+  }
   printf("telegram %s, lookup flags %s%s\n", teleHex(t).c_str(), flagStr(f).c_str(), env ? (env->onlyAvailable ? ", onlyAvailable=true" : ", onlyAvailable=false") : "");
-  printf("reference (linear scan over the loaded definitions):\n");
-  for (int di : b.loaded) {
+  printf("reference (linear scan over the loaded definitions and the two built-in identification messages):\n");
+  vector<int> shown = b.loaded;
+  shown.push_back(c08::GENERIC_SCAN); shown.push_back(c08::BROADCAST_SCAN);
+  for (int di : shown) {
     int l; const char* why;
     int r = refMatch(U[di], t, f, &l, &why);
     if (env && env->onlyAvailable && !refAvailable(U[di], env)) { printf("  n%02d: not available (condition not fulfilled)\n", di); continue; }
@@ -444,9 +554,10 @@ static int replay(const vector<Def>& U, const string& c) {
   const Message* msg = b.map->find(ms, (f & F_ANYDEST) != 0, (f & F_READ) != 0, (f & F_WRITE) != 0, (f & F_PASSIVE) != 0,
                                    env ? env->onlyAvailable : true);
   int res = resultIndex(msg);
-  if (res >= 0) printf("observed: find() -> n%02d\n", res); else printf("observed: find() -> %s\n", res == -1 ? "nullptr" : "foreign message");
+  if (res >= 0) printf("observed: find() -> n%02d%s\n", res, U[res].implicit ? (string(" = ") + c08::defLine(U[res], res)).c_str() : "");
+  else printf("observed: find() -> %s\n", res == -1 ? "nullptr" : "foreign message");
   Verdict v = judge(U, b.loaded, t, f, res, env);
-  if (v.rule.empty()) { printf("OK\n"); return 0; }
+  if (v.rule.empty()) { printf(b.editViolations.empty() ? "OK\n" : "VIOLATES (edit)\n"); return b.editViolations.empty() ? 0 : 1; }
   printf("VIOLATES %s: %s\n", v.sig.c_str(), v.detail.c_str());
   return 1;
 }
@@ -468,18 +579,32 @@ int main(int argc, char** argv) {
   size_t maxSize = std::max(maxFull, maxMember);
   vector<int> all, core;
   vector<int> condPool;   // availability pass: conditional definitions and their unconditional partners
+  vector<int> editPool;   // edit pass: states followed by one remove / replacing add
   vector<int> shapePool;  // chain-shape pass: chained definitions with >= 3 parts and the same partners
   for (size_t i = 0; i < U.size(); i++) {
     if (U[i].cond || U[i].condPool) condPool.push_back((int)i);
     if (U[i].shape || U[i].condPool) shapePool.push_back((int)i);
-    if (U[i].cond || U[i].shape) continue;
+    if (U[i].editPool) editPool.push_back((int)i);
+    if (U[i].cond || U[i].shape || U[i].implicit) continue;
     all.push_back((int)i); if (U[i].core) core.push_back((int)i);
   }
   R.note("universe " + std::to_string(all.size()) + " definitions (core " + std::to_string(core.size()) + ") + " +
-         std::to_string(c08::FIRST_SHAPE - c08::FIRST_CONDITIONAL) + " conditional ones (5 environments) + " + std::to_string(U.size() - c08::FIRST_SHAPE) +
+         std::to_string(c08::FIRST_SHAPE - c08::FIRST_CONDITIONAL) + " conditional ones (5 environments) + " + std::to_string(c08::FIRST_IMPLICIT - c08::FIRST_SHAPE) +
          " chained ones with 3-4 parts, the latter two groups explored with 12 partners, " +
          std::to_string(teles.size()) + " telegrams x 16 flag combinations");
 
+  // universe pin: every CSV row of the universe is valid by the documented format and must load alone; otherwise a
+  // loader that refuses rows would silently empty the judged states ("loaded" = accepted by the loader)
+  if (A.part == 0) {
+    for (int di = 0; di < c08::FIRST_IMPLICIT; di++) {
+      Built b1 = build(U, {di}, U[di].cond ? &ENVS[1] : nullptr);
+      R.evaluations++;
+      if (b1.loaded.size() != 1)
+        R.violation(string("C08/universe-shrunk/") + kindName(U[di]) + "-" + dirName(U[di]) + (U[di].cond ? "-conditional" : ""),
+                    "row of the harness universe is not loaded into an empty map: " + c08::defLine(U[di], di) + " -> " + getResultCode(b1.results[0]),
+                    "defs=" + std::to_string(di) + ";u=1");
+    }
+  }
   bool stop = false;
   // pass 1: all sizes over the full universe up to maxSize (or maxSize-1 when the last size uses the core)
   // pass 2: size maxSize over the core universe
@@ -525,8 +650,68 @@ int main(int argc, char** argv) {
     };
     rec();
   }
+  // pass 5 (edit): every ordered subset of size <= maxEdit of the edit pool (fold twins, conditional twins, chained and
+  //         direction neighbours), followed by one remove of a member or one replacing add of any pool definition;
+  //         telegrams derived from the members and the edited definition
+  uint64_t smallIdx = 0;
+  {
+    size_t maxEdit = (size_t)A.getInt("maxedit", A.thorough() ? 3 : 2);
+    vector<int> order;
+    vector<bool> used(U.size(), false);
+    std::function<void()> rec = [&]() {
+      if (stop) return;
+      if (!order.empty()) {
+        vector<Edit> edits;
+        for (int di : order) edits.push_back(Edit{'r', di});
+        for (int di : editPool) edits.push_back(Edit{'a', di});
+        for (const Edit& ed : edits) {
+          if ((int)(smallIdx++ % (uint64_t)A.nparts) != A.part) continue;
+          if (R.expired()) { stop = true; return; }
+          bool hasCond = U[ed.def].cond != 0;
+          for (int di : order) if (U[di].cond) hasCond = true;
+          R.count("states_with_edit");
+          runState(U, teles, order, true, &ENVS[1], &ed);
+          if (hasCond) runState(U, teles, order, true, &ENVS[2], &ed);
+        }
+      }
+      if (order.size() >= maxEdit) return;
+      for (int di : editPool) {
+        if (used[di]) continue;
+        used[di] = true; order.push_back(di);
+        rec();
+        order.pop_back(); used[di] = false;
+      }
+    };
+    rec();
+  }
+  // pass 6 (identification messages): the built-in 07 04 messages and the per-address ones created by
+  //         getScanMessage(08) / getScanMessage(15), in every order with two ordinary definitions
+  {
+    vector<TeleEntry> scanTeles;
+    struct TD { unsigned pb, sb; const char* data; };
+    for (TD td : {TD{0x07, 0x04, ""}, TD{0x07, 0x04, "00"}, TD{0x07, 0x05, ""}, TD{c08::PB, c08::SB, ""}, TD{c08::PB, c08::SB, "0d0100"}})
+      for (unsigned qq : {0x10u, 0x03u, 0x31u}) for (unsigned zz : {0x08u, 0x15u, 0xfeu, 0x30u}) {
+        TeleEntry e; e.t = Tele{qq, zz, td.pb, td.sb, c08::hx(td.data)}; e.derivedFrom = ~0ULL; toMaster(e.t, &e.ms);
+        scanTeles.push_back(e);
+      }
+    vector<int> pool = {0, 3, c08::FIRST_IMPLICIT, c08::FIRST_IMPLICIT + 1};
+    vector<int> order;
+    vector<bool> used(U.size(), false);
+    std::function<void()> rec = [&]() {
+      if (stop) return;
+      if ((int)(smallIdx++ % (uint64_t)A.nparts) == A.part) { R.count("states_with_identification_messages"); runState(U, scanTeles, order, false); }
+      for (int di : pool) {
+        if (used[di]) continue;
+        used[di] = true; order.push_back(di);
+        rec();
+        order.pop_back(); used[di] = false;
+      }
+    };
+    rec();
+  }
   {
     Tele t{0x31, 0x08, c08::PB, c08::SB, c08::hx("0d0100")};
+    R.sample("edit: [" + c08::defLine(U[5], 5) + " | " + c08::defLine(U[8], 8) + "] then remove(n05) or add(replace=true) of n05: the fold twin n08 must stay loaded and found");
     R.sample("state = ordered list of loaded definitions, e.g. [" + c08::defLine(U[3], 3) + " | " + c08::defLine(U[30], 30) + " | " + c08::defLine(U[13], 13) + "]");
     R.sample("telegram " + teleHex(t) + " from sources 10/03/31 to 08/15/fe/30 with each of 16 flag combinations; reference = linear scan, longest matching ID must win");
     R.sample("availability: [" + c08::defLine(U[40], 40) + " | " + c08::defLine(U[41], 41) + "] with the condition message received as 1 / 2 / 3 / never, onlyAvailable true/false");
